@@ -1,11 +1,13 @@
 """C07 - every contract and result scores what the duplicate table says (complete finite domain)."""
 from bridge_env import Bid, Contract
-from bridge_env.score import calc_score
+from bridge_env.score import calc_score as _calc_score
 
 from .. import adapt
 from ..core import Counter, Result
 from ..ref import score as R
 from ..ref.auction import BIDS
+
+calc_score = adapt.shaped(_calc_score)      # every question is also asked with the arguments passed by keyword
 
 
 def run(tier, seed, workers):
